@@ -254,8 +254,15 @@ pub fn ans_walk<C: Cfg, A: Default + Send, V: Fn(&AnsNode<C>, &mut A) + Sync>(
             let mut acc = A::default();
             let mut counts = (0u64, 0u64);
             let words: Vec<C::W> = inits[i].iter().map(|&w| C::w(w)).collect();
-            let coder = AnsCoder::<C::W, C::S>::from_compressed(words)
-                .expect("HARNESS: initial word string must be valid for from_compressed");
+            // an initial word string that ends in the marker word 1 is raw binary data followed by its marker:
+            // such coders are loaded through `from_binary` (the other initial strings through `from_compressed`),
+            // so that both import paths are starting points of the histories
+            let coder = if words.last().map(|&w| w.into()) == Some(1u128) && words.len() >= 2 {
+                AnsCoder::<C::W, C::S>::from_binary(words[..words.len() - 1].to_vec()).expect("HARNESS: Vec backend")
+            } else {
+                AnsCoder::<C::W, C::S>::from_compressed(words)
+                    .expect("HARNESS: initial word string must be valid for from_compressed")
+            };
             let rf = RefAns::import(C::WBITS, C::SBITS, &inits[i]);
             let mut stack = vec![];
             let mut exports = vec![ans_export::<C>(&coder)];
